@@ -632,12 +632,25 @@ class Interp:
                 v = 1 if v else 0
             if isinstance(v, Char):
                 v = ord(v.c)
+            t = ty.strip()
+            if kind == "FloatToInt" and t in INT_RANGES:
+                # Rust's float -> int `as`: truncation toward zero, saturating at the bounds of the target type, NaN -> 0
+                lo, hi = INT_RANGES[t]
+                if isinstance(v, float):
+                    if v != v:
+                        return 0
+                    if v == float("inf") or v >= hi:
+                        return hi
+                    if v == float("-inf") or v <= lo:
+                        return lo
+                    return int(v)
+                if is_sym(v) and z3.is_real(v):
+                    tr = z3.If(v >= 0, z3.ToInt(v), -z3.ToInt(-v))
+                    return z3.simplify(z3.If(v >= hi, z3.IntVal(hi), z3.If(v <= lo, z3.IntVal(lo), tr)))
             if isinstance(v, float):
                 v = int(v)
             if is_sym(v) and z3.is_real(v):
-                # float -> int: truncation toward zero (saturation at the type bounds is outside the modelled range)
                 v = z3.If(v >= 0, z3.ToInt(v), -z3.ToInt(-v))
-            t = ty.strip()
             if t in INT_RANGES:
                 lo, hi = INT_RANGES[t]
                 width = hi - lo + 1
